@@ -141,6 +141,21 @@ class System:
                 return {"t": "cell", "id": eids.setdefault(v["id"], len(eids) + 1), "c": v["c"]}
             return v
 
+        # Reading `.param` populates caches, so it is done only where the behaviour itself reads the
+        # namespace (readns) or necessarily goes through it; everything else is observed through
+        # plain attribute access and inspect.getattr_static, which leave the caches alone.
+        act = st["act"]
+        ns_classes = set()
+        ns_insts = set()
+        if name == "init":
+            pass
+        elif name == "readns":
+            ns_classes.add(act["c"])
+            ns_insts.update(k for k, i in enumerate(self.insts) if type(i).__name__ == act["c"])
+        elif name in ("instparam", "instmeta", "instset", "mutateinst", "enteredit", "exitedit"):
+            ns_insts.add(act["i"] - 1)
+        elif name == "addparam":
+            ns_classes.add(act["c"])
         for c in self.cnames:
             cls = self.classes[c]
             want = exp["classes"][c]
@@ -160,6 +175,8 @@ class System:
                     return ("class_meta", "after %s: %s.%s Parameter attribute is %r, spec expects %r" % (name, c, n, static.precedence, e["bounds"]))
                 if not editing and bool(static.constant) != e["constant"]:
                     return ("class_constant", "after %s: %s.%s constant flag is %r, spec expects %r" % (name, c, n, static.constant, e["constant"]))
+                if c not in ns_classes:
+                    continue
                 # C13: the namespace agrees with attribute access
                 if n not in cls.param:
                     return ("namespace", "after %s: %r is an attribute of %s but not listed in %s.param" % (name, n, c, c))
@@ -170,20 +187,21 @@ class System:
                     return ("namespace", "after %s: %s.param[%r].default is %r but %s.%s is %r" % (name, c, n, cls.param[n].default, c, n, v))
                 if cls.param.values()[n] is not v and cls.param.values()[n] != v:
                     return ("namespace", "after %s: %s.param.values()[%r] is %r but %s.%s is %r" % (name, c, n, cls.param.values()[n], c, n, v))
-            extra = [n for n in cls.param if n != "name" and n not in want]
+            extra = [n for n in cls.param if n != "name" and n not in want] if c in ns_classes else []
             if extra:
                 return ("namespace", "after %s: %s.param lists %r which the spec does not declare" % (name, c, extra))
         for k, inst in enumerate(self.insts):
             want = exp["insts"][k]
             want = want if isinstance(want, dict) else {}
-            existing = inst.param.objects(instance="existing")
+            existing = inst.param.objects(instance="existing") if k in ns_insts else None
             for n in sorted(want):
                 e = want[n]
                 v = getattr(inst, n)
-                tol = "KF_StaleInstanceParam" in self.tolerate
                 if cell(v) != ecell(e["val"]):
                     return ("inst_value", "after %s: instance %d (%s).%s is %r, spec expects %s" % (
                         name, k + 1, type(inst).__name__, n, v, ecell(e["val"])))
+                if existing is None:
+                    continue
                 pv = inst.param.values()[n]
                 if pv is not v and pv != v:
                     return ("namespace", "after %s: instance %d .param.values()[%r] is %r but attribute is %r" % (name, k + 1, n, pv, v))
